@@ -8,7 +8,7 @@ from engines import runner
 from engines.facts import Program
 from engines.registry import RULES
 
-ZERO_OK = {"G1", "G2", "A8"}
+ZERO_OK = {"G1", "G2", "A8", "F20", "F22"}
 out = {}
 meas = {}
 for cfg in runner.THOROUGH:
